@@ -63,13 +63,15 @@ enum FaultKind
   FK_SURPLUS,         // proper response followed by surplus bytes
   FK_CONN_CLOSE,      // proper response with Connection: close (server keeps the socket open)
   FK_HTTP10,          // HTTP/1.0 response without keep-alive
+  FK_SECOND_REQ_DROP, // first request on the connection answered properly; the SECOND complete request is read in full and the
+                      // connection is then closed without a byte of response (pos: 0 = FIN, 1 = RST) - a reused keep-alive connection dying
   FK_FRAMING_X,       // full request, one of the malformed responses in FRAMING_X (pos = variant): each is a deterministic
                       // framing/parse violation of the response, whatever the client calls it internally
   FK_KINDS
 };
 const char *faultName(int k)
 {
-  static const char *n[] = {"ok", "refuse", "blackhole", "rst@req", "fin@req", "rst@resp", "fin@resp", "bad-status", "cl+te", "two-cl", "silence", "surplus", "conn-close", "http10", "framing-x"};
+  static const char *n[] = {"ok", "refuse", "blackhole", "rst@req", "fin@req", "rst@resp", "fin@resp", "bad-status", "cl+te", "two-cl", "silence", "surplus", "conn-close", "http10", "second-req-drop", "framing-x"};
   return n[k];
 }
 struct Fault
@@ -237,6 +239,17 @@ void serverOnReadable(Server &sv, Conn &c)
     c.requestsSeen = n;
     // only the FIRST request on a connection gets the planned fault; later ones get a proper response
     int k = c.answered == 0 ? c.fault.kind : FK_OK;
+    if (c.fault.kind == FK_SECOND_REQ_DROP)
+    {
+      if (c.answered == 0)
+        k = FK_OK;
+      else
+      {
+        c.answered++;
+        serverCloseConn(sv, c, c.fault.pos == 1);
+        return;
+      }
+    }
     std::string out;
     bool closeAfter = false, rst = false;
     switch (k)
@@ -452,7 +465,9 @@ Fault chooseFault(int menu, int reqLen, bool allPositions)
     f.pos = reqLen;
     return f;
   }
-  f.kind = mc_choose(FK_KINDS, MC_FREE);
+  f.kind = mc_choose(FK_KINDS - 1, MC_FREE); // every kind except FK_SECOND_REQ_DROP (meaningful only on a reused connection)
+  if (f.kind >= FK_SECOND_REQ_DROP)
+    f.kind++;
   if (f.kind == FK_RST_AFTER_P || f.kind == FK_FIN_AFTER_P)
     f.pos = choosePos(reqLen, allPositions);
   else if (f.kind == FK_RESP_CUT_RST || f.kind == FK_RESP_CUT_FIN)
@@ -595,6 +610,52 @@ void sequence()
   mc_quiesce();
 }
 
+
+// ---------------------------------------------------------------- a reused keep-alive connection dies under the second request
+// First exchange healthy (connection cached).  The second request travels on the cached connection; the server reads it
+// COMPLETELY and drops the connection without a byte of response.  The request has reached the wire, so a
+// non-idempotent method must not be sent again whatever the retry budget; an idempotent one at most budget+1 times.
+void sequenceSecondDrop()
+{
+  mc_label("main:sequence2");
+  simk_cfg.tcpRcvBuf = 8192;
+  simk_cfg.shortIo = false;
+  mc_set_sleep_quantum(1000000000ull);
+  std::string m2 = METHODS[mc_choose(5, MC_FREE)];
+  int retries = mc_choose(3, MC_FREE);
+  int rst = mc_choose(2, MC_FREE);
+  Server sv;
+  Fault f;
+  f.kind = FK_SECOND_REQ_DROP;
+  f.pos = rst;
+  sv.plan.push_back(f);
+  std::thread th;
+  serverStart(sv, th);
+  auto cl = makeClient();
+  CallResult r1 = doCall(*cl, "GET", "r1", 0);
+  mc_quiesce(10ull * 1000000ull);
+  CallResult r2 = doCall(*cl, m2, "r2", retries);
+  mc_quiesce(50ull * 1000000ull);
+  serverStop(sv, th);
+  std::string plan = "GET then " + m2 + " retries=" + std::to_string(retries) + " second request dropped by " + (rst ? "RST" : "FIN") + " after it was read in full";
+  // on how many connections did a byte of the second request arrive?
+  int carried = 0;
+  for (auto &c : sv.conns)
+    if (c.in.find("X-Req: r2") != std::string::npos)
+      ++carried;
+  mc_obs("%s -> r1=%d r2=%d conns=%zu r2-on=%d", plan.c_str(), int(r1.ok), int(r2.ok), sv.conns.size(), carried);
+  if (!sv.violation.empty())
+    mc_violation(sv.violationClause.c_str(), sv.violationSig, sv.violation + " (" + plan + ")");
+  if (!r1.ok)
+    mc_violation("result-truthful", "first-request-failed-against-healthy-server", "request 1 failed: " + r1.error.substr(0, 80));
+  if (!idempotent(m2) && carried > 1)
+    mc_violation("at-most-once", "non-idempotent-sent-twice:after:reused-connection-dropped", m2 + " reached the wire on " + std::to_string(carried) + " connections (" + plan + ")");
+  if (idempotent(m2) && carried > retries + 1)
+    mc_violation("attempt-budget", "more-attempts-than-budget:reused-connection-dropped", m2 + " was sent on " + std::to_string(carried) + " connections with a retry budget of " + std::to_string(retries) + " (" + plan + ")");
+  cl.reset();
+  mc_quiesce();
+}
+
 // ---------------------------------------------------------------- two concurrent callers on one client
 void concurrent()
 {
@@ -653,6 +714,15 @@ int main(int argc, char **argv)
     McScenario m;
     m.name = "sequence";
     m.body = []() { sequence(); };
+    m.quick.S = 0;
+    m.thorough.S = 0;
+    m.horizon_s = 120;
+    v.push_back(m);
+  }
+  {
+    McScenario m;
+    m.name = "sequence_second_drop";
+    m.body = []() { sequenceSecondDrop(); };
     m.quick.S = 0;
     m.thorough.S = 0;
     m.horizon_s = 120;
